@@ -271,24 +271,6 @@ theorem lexLine_stripComments (x : String) : lexLine (stripComments x).toList = 
 
 /-! ## the block cutting loop of `engine` -/
 
-/-- the loop of `FllImporter.engine` on raw lines: the loop of the token-level model (`engineLoop`) with the lexer
-    applied to each line when the loop reaches it -/
-def engineLoopText : List String → Option Key → List Line → Engine → Except Err Engine
-  | [], comp, block, e => engineLoop [] comp block e
-  | raw :: rs, comp, block, e =>
-    match lexLine raw.toList with
-    | .error err => .error err
-    | .ok none => engineLoopText rs comp block e
-    | .ok (some l) =>
-      if isHeader l.key then
-        match comp with
-        | some k => (processBlock k block e) >>= engineLoopText rs (some l.key) [l]
-        | none => engineLoopText rs (some l.key) [l] e
-      else engineLoopText rs comp (block ++ [l]) e
-
-/-- `FllImporter.from_string` on a text -/
-def importTextLazy (fll : String) : Except Err Engine := engineLoopText (splitLines fll) none [] {}
-
 /-- a stripped line kept in the block of the code and the token line kept in the block of the model -/
 def LineOK (s : String) (l : Line) : Prop := lexLine s.toList = .ok (some l) ∧ NlFree s.toList
 
